@@ -218,6 +218,12 @@ func verifEvent(s string) {
 func verifLock()                         { verifRT.big.Lock() }
 func verifUnlock()                       { verifRT.big.Unlock() }
 func verifSymbolic() bool                { return false }
+
+// verifIOWrite / verifIORead: happens-before through the transport, as Go's own race detector models it for
+// real connections (internal/poll: every Write is a release on a global ioSync, every Read an acquire).
+// Natively they do nothing (the in-memory transport's lock already orders the two).
+func verifIOWrite() {}
+func verifIORead()  {}
 func verifCut(s string)                  {}
 func verifSetRand(v int)                 {}
 func verifParam(name string, def int) int {
